@@ -506,7 +506,7 @@ impl Gen {
         // pools
         let mut pools = Vec::new();
         let mut used_tiers: Vec<u16> = Vec::new();
-        for p in 0..knobs.n_pools {
+        'pools: for p in 0..knobs.n_pools {
             let spacing = *rng.pick(&knobs.spacing_choices);
             let (ma, mb) = if p == 0 {
                 (mint_keys[0], mint_keys[1])
@@ -544,12 +544,13 @@ impl Gen {
             let price = pick_start_price(&mut rng, spacing);
             let adaptive = knobs.adaptive_pct > 0 && rng.chance(knobs.adaptive_pct, 100);
             if adaptive {
+                'ad: {
                 let (tier_index, c) = crate::gen2::pick_adaptive_constants(&mut rng, spacing, p as u16);
                 let permissioned = rng.chance(1, 3);
                 let pool_auth = if permissioned { payer } else { Pubkey::default() };
                 let base_fee = *rng.pick(&[0u16, 100, 3000, 10000, 60000]);
                 let tier = ix::pda_fee_tier(&config, tier_index);
-                world::must(
+                if !world::attempt(
                     &mut l,
                     vec![ix::mk(
                         whirlpool::accounts::InitializeAdaptiveFeeTier {
@@ -575,7 +576,10 @@ impl Gen {
                         },
                     )],
                     "initialize_adaptive_fee_tier",
-                );
+                ) {
+                    // the program refuses this tier: the pool becomes an ordinary one (recorded as an observation)
+                    break 'ad;
+                }
                 let whirlpool = ix::pda_whirlpool(&config, &ma, &mb, tier_index);
                 let keys = PoolKeys {
                     whirlpool,
@@ -617,7 +621,8 @@ impl Gen {
                     "initialize_pool_with_adaptive_fee",
                 );
                 pools.push(PoolInfo { keys, adaptive: true });
-                continue;
+                continue 'pools;
+                }
             }
             let use_v2 = rng.chance(1, 2) || knobs.v2_only;
             let ixn = if use_v2 {
